@@ -222,7 +222,15 @@ func mutate(g *hx.Gen, t *hx.Ty, env map[string]*hx.Ty, depth int) (mutation, bo
 				return m, true
 			}
 		}
-		switch g.R.Intn(4) {
+		switch g.R.Intn(5) {
+		case 4:
+			for i, p := range t.Props {
+				if !p.P.Required {
+					t.Props[i].Name = p.Name + "_renamed"
+					return mutation{"object: producer has an optional property under another name (one undeclared, one missing)", true}, true
+				}
+			}
+			fallthrough
 		case 0:
 			t.Props = append(t.Props, hx.NamedProp{Name: "undeclared_extra", P: &hx.Prop{Ty: &hx.Ty{T: "int"}}})
 			return mutation{"object: producer carries an undeclared property", true}, true
